@@ -6,6 +6,7 @@ import (
 	"fmt"
 	"go/token"
 	"go/types"
+	"sort"
 
 	"golang.org/x/tools/go/ssa"
 )
@@ -244,6 +245,45 @@ func runC18(c *Ctx) {
 	P := c.P
 	c.Explanation = "Decides: (R-NONNIL-FRESH) every value returned by New, NewSize, Clone, Intersect, Range, Keys and Values is a map allocated inside the call and provably non-nil — a make; maps.Clone(x) only under the fact x != nil; the result of a receiver-returning helper applied to such a map; or the content of a local cell that only ever receives such maps (including through (*Set).Add/AddAll, whose stores through the receiver are summarised) — and is never a parameter, so results cannot alias arguments; AddAll on a nil receiver stores a clone, not its argument. (R-NIL-LAZY) in pointer-receiver methods every update of *s is preceded on all paths by *s != nil or by storing a fresh map. (R-LIST-WHOLE) a variadic list of items is never re-sliced to an upper bound other than its own length. Does NOT decide the set-theoretic answers of the predicates, Pop, or Slice."
 	c.rule("R-NONNIL-FRESH", 7, "returned sets are fresh, non-nil, and never a parameter; stores through a *Set receiver store fresh non-nil maps")
+	c.rule("R-ARG-IMMUTABLE", 4, "a map update or delete in package mapset goes through the receiver (or a map allocated in the function), never through a set passed as an argument")
+	for _, fn := range P.PkgFuncs("mapset") {
+		if fn.Parent() != nil {
+			continue
+		}
+		oc := newOrig(fn)
+		isMethod := fn.Signature.Recv() != nil
+		n := 0
+		judgeMap := func(in ssa.Instruction, mp ssa.Value, what string) {
+			o := oc.of(mp)
+			var foreign []string
+			for pi := range o.Params {
+				if isMethod && pi == 0 {
+					continue
+				}
+				if pi < len(fn.Params) {
+					foreign = append(foreign, fn.Params[pi].Name())
+				}
+			}
+			sort.Strings(foreign)
+			n++
+			c.sawFn(fnName(fn))
+			key := fmt.Sprintf("%s:%s #%d", fnName(fn), what, n)
+			c.judge(len(foreign) == 0, "R-ARG-IMMUTABLE", key, in.Pos(), "writes the receiver or a fresh map", fmt.Sprintf("the map written may be the argument %v (origin %s): an operation documented to change its receiver modifies the set passed to it", foreign, o))
+		}
+		allInstrs(fn, func(in ssa.Instruction) {
+			switch x := in.(type) {
+			case *ssa.MapUpdate:
+				judgeMap(in, x.Map, "map update")
+			case *ssa.Call:
+				if del, ok := isBuiltinCall(x, "delete"); ok {
+					judgeMap(in, del.Call.Args[0], "delete")
+				}
+				if clr, ok := isBuiltinCall(x, "clear"); ok {
+					judgeMap(in, clr.Call.Args[0], "clear")
+				}
+			}
+		})
+	}
 	c.rule("R-CARD-SHORTCUT", 1, "a branch on len(a) vs len(b) that returns a constant answer compares two sets, never a list (repeats) with a set")
 	c.rule("R-NIL-LAZY", 2, "every map update of *s (directly or via a receiver-updating helper) is preceded on all paths by *s != nil or a store of a fresh map")
 	setT := P.Named("mapset", "Set")
